@@ -232,6 +232,10 @@ SEEDS = [
     # explicit `send $action.Stop()`, then the flow ends: the action was already stopped
     ("flow main\n  start f1\n  match Never()\n\nflow f1\n  start UtteranceBotAction(script=\"a\") as $a1\n  start TimerBotAction(timer_name=\"t\", duration=1.0)\n  match E0()\n  send $a1.Stop()\n  match E1()\n",
      [["ev", 0], ["ev", 1]]),
+    # DESIGN F4 (property C10): an activated flow that fails before it ever waited.  On a tree without
+    # C10's restart guard run_to_completion does not return: skipped under the watchdog and counted.
+    ("flow main\n  activate f1\n  start f2\n  match Never()\n\nflow f1\n  start UtteranceBotAction(script=\"a\")\n  abort\n\nflow f2\n  activate f1\n  match E0()\n",
+     [["ev", 0], ["ev", 1]]),
     # ... or is stopped by its parent
     ("flow main\n  start f1 as $r1\n  match E1()\n  send $r1.Stop()\n  match Never()\n\nflow f1\n  start UtteranceBotAction(script=\"a\") as $a1\n  start f2\n  match E0()\n  send $a1.Stop()\n  match Never()\n\nflow f2\n  await GestureBotAction(gesture=\"g\")\n",
      [["ev", 0], ["ev", 1], ["finished", 0]]),
@@ -319,11 +323,17 @@ class Recorder:
         orig_upd = sm._update_action_status_by_event
 
         def mk(orig, opname):
-            def wrapper(state, flow_state, matching_scores, deactivate_flow=False):
-                r0 = rec.begin(state, [opname, flow_state.uid, bool(deactivate_flow)])
+            def wrapper(state, flow_state, matching_scores, deactivate_flow=False, *args, **kwargs):
+                # tolerant of the optional `restart_flow` keyword of _abort_flow (default True)
+                restart = kwargs.get("restart_flow", args[0] if args else True)
+                extra = [k for k in kwargs if k != "restart_flow"] or (["positional"] if len(args) > 1 else [])
+                op = [opname if restart else opname + "_norestart", flow_state.uid, bool(deactivate_flow)]
+                if extra or (not restart and opname != "abort"):
+                    op = ["unmodelled:" + opname + ":" + ",".join(extra), flow_state.uid, bool(deactivate_flow)]
+                r0 = rec.begin(state, op)
                 rec.stack.append(flow_state.uid)
                 try:
-                    r = orig(state, flow_state, matching_scores, deactivate_flow)
+                    r = orig(state, flow_state, matching_scores, deactivate_flow, *args, **kwargs)
                 except BaseException as e:
                     rec.stack.pop()
                     rec.end(state, r0, e)
@@ -333,8 +343,8 @@ class Recorder:
                 return r
             return wrapper
 
-        def abort_kw(state, flow_state, matching_scores, deactivate_flow=False):
-            return wrapped_abort(state, flow_state, matching_scores, deactivate_flow)
+        def abort_kw(state, flow_state, matching_scores, deactivate_flow=False, *args, **kwargs):
+            return wrapped_abort(state, flow_state, matching_scores, deactivate_flow, *args, **kwargs)
 
         wrapped_abort = mk(orig_abort, "abort")
         sm._abort_flow = abort_kw
@@ -880,8 +890,12 @@ def case_term(rec):
     try:
         pre_t = st_term(pre, [])
         op = rec["op"]
+        if op[0].startswith("unmodelled:"):
+            return None, "call outside the model: " + op[0]
         if op[0] == "abort":
             op_t = f"(OAbort {uid(op[1])} {C.coq_bool(op[2])})"
+        elif op[0] == "abort_norestart":
+            op_t = f"(OAbortNR {uid(op[1])} {C.coq_bool(op[2])})"
         elif op[0] == "finish":
             op_t = f"(OFinish {uid(op[1])} {C.coq_bool(op[2])})"
         elif op[0] == "endscope":
